@@ -34,10 +34,10 @@ theorem extOfPrem_node {t : Tree} {X : Rows} {m : Nat} {j : Nat} {P : Prem} (h :
 
 /-! ### strictness of node extents -/
 
-theorem EF_strict {t : Tree} {X : Rows} {m : Nat} {eps : Rat} (hwf : wellFormed t X m eps = true)
+theorem EF_strict {t : Tree} {X : Rows} {m : Nat} {nxt : Rat → Rat} (hwf : wellFormed t X m nxt = true)
     (hfit : fitted t X = true) {j : Nat} (hj0 : 0 < j) (hjn : j < t.n) :
     (EF t X j).length < nObjects X := by
-  obtain ⟨hlen, _, hnode⟩ := wf_parts hwf
+  obtain ⟨hlen, hnode⟩ := wf_parts hwf
   obtain ⟨_, hrlen⟩ := wf_parts2 hwf
   obtain ⟨p, hp⟩ := Option.isSome_iff_exists.mp (parents_exist hwf j hj0 hjn)
   obtain ⟨l, r, f, thr, g1, g2, g3, g4, gl, hpn, hpk, hkc⟩ := node_of_parent hlen hrlen hnode hp
@@ -75,8 +75,8 @@ theorem EF_strict {t : Tree} {X : Rows} {m : Nat} {eps : Rat} (hwf : wellFormed 
 
 /-! ### leaves -/
 
-theorem two_leaves {t : Tree} {X : Rows} {m : Nat} {eps : Rat}
-    (hlen : t.left.length = t.n) (hwf : ∀ i < t.n, wfNode t X m eps i = true) :
+theorem two_leaves {t : Tree} {X : Rows} {m : Nat} {nxt : Rat → Rat}
+    (hlen : t.left.length = t.n) (hwf : ∀ i < t.n, wfNode t X m nxt i = true) :
     ∀ (d i : Nat) (l : Int), t.n - i ≤ d → i < t.n → t.left[i]? = some l → ¬ l = -1 →
       ∃ a b, a ≠ b ∧ a < t.n ∧ b < t.n ∧ t.left[a]? = some (-1) ∧ t.left[b]? = some (-1) := by
   intro d
@@ -232,10 +232,10 @@ theorem bottomConcept_ok (X : Rows) (m : Nat) (hm : 0 < m) :
   rw [hm', List.range_succ_eq_map, ← hm']
   simp only [List.map_cons, conceptFromDescr, extensionI, extLoop, hpy, hfil, List.isEmpty_nil, if_true]
 
-theorem leaf_mem_bottoms {t : Tree} {X : Rows} {m : Nat} {eps : Rat} (hwf : wellFormed t X m eps = true)
+theorem leaf_mem_bottoms {t : Tree} {X : Rows} {m : Nat} {nxt : Rat → Rat} (hwf : wellFormed t X m nxt = true)
     {a : Nat} (ha : a < t.n) (hleaf : t.left[a]? = some (-1)) :
     a ∈ bottomsByChildren ((List.range t.n).map (dparF t)) t.n := by
-  obtain ⟨hlen, _, hnode⟩ := wf_parts hwf
+  obtain ⟨hlen, hnode⟩ := wf_parts hwf
   obtain ⟨_, hrlen⟩ := wf_parts2 hwf
   unfold bottomsByChildren
   rw [List.mem_filter, List.mem_range]
@@ -249,12 +249,12 @@ theorem leaf_mem_bottoms {t : Tree} {X : Rows} {m : Nat} {eps : Rat} (hwf : well
     rw [hleaf] at g1
     exact gl (Option.some.inj g1).symm
 
-theorem conversion_ok {t : Tree} {X : Rows} {m : Nat} {eps : Rat} (hwf : wellFormed t X m eps = true)
-    (hfit : fitted t X = true) : ∃ L, fromDecisionTree t X m eps = .ok L := by
-  obtain ⟨hlen, _, hnode⟩ := wf_parts hwf
+theorem conversion_ok {t : Tree} {X : Rows} {m : Nat} {nxt : Rat → Rat} (hwf : wellFormed t X m nxt = true)
+    (hfit : fitted t X = true) : ∃ L, fromDecisionTree t X m nxt = .ok L := by
+  obtain ⟨hlen, hnode⟩ := wf_parts hwf
   obtain ⟨hn, hrlen⟩ := wf_parts2 hwf
   obtain ⟨r, hr, hplen, hprem⟩ := parse_ok hwf hfit
-  obtain ⟨hdp, _⟩ := parse_inv t m eps r hn hr
+  obtain ⟨hdp, _⟩ := parse_inv t m nxt r hn hr
   -- the concepts
   have hentries : ∀ P ∈ r.premises, ∀ jd ∈ P, entryOK m jd := by
     intro P hP
